@@ -256,7 +256,12 @@ def quad_area(A:Vec, B:Vec, C:Vec, D:Vec) -> float:
     Returns:
         float: area
     """
-    return (triangle_area(A,B,C) + triangle_area(A,C,D) + triangle_area(B,C,D) + triangle_area(B,D,A))/2
+    N = cross(C-A, D-B) # twice the vector area of the quad: orientation reference
+    def signed_area(P,Q,R):
+        # a triangle seen from the other side (non-convex quad) counts negatively
+        c = cross(Q-P,R-P)
+        return sign0(dot(c,N)) * c.norm()/2
+    return (signed_area(A,B,C) + signed_area(A,C,D) + signed_area(B,C,D) + signed_area(B,D,A))/2
 
 def det_2x2(A:Union[complex,np.ndarray], B:Union[complex,np.ndarray]) -> float:
     """Computes a 2x2 determinant
